@@ -706,3 +706,328 @@ pub fn gen_repr(rg: &mut Rg, repr: Option<&str>, derives: &[String]) -> EnumSpec
     }
     e
 }
+
+/// Shape-family enum (C13): EnumIs + EnumTryAs
+pub fn gen_shape(rg: &mut Rg) -> EnumSpec {
+    let mut e = EnumSpec::new("En");
+    e.derives = vec!["EnumIs".into(), "EnumTryAs".into()];
+    e.type_param = rg.chance(1, 4);
+    e.lifetime = rg.chance(1, 5);
+    e.where_clause = false;
+    let n = rg.range(1, 8);
+    let mut idents: Vec<&str> = IDENTS.iter().copied().filter(|i| method_safe(i)).collect();
+    rg.shuffle(&mut idents);
+    // payload pool: deliberately small so that equal types and equal signatures are frequent
+    let pool_a = [FieldTy::U8, FieldTy::U8, FieldTy::Str, FieldTy::I32, FieldTy::NoDef, FieldTy::Bool];
+    let mut used_methods: Vec<String> = Vec::new();
+    let mut last_sig: Option<Vec<FieldTy>> = None;
+    let mut ii = 0;
+    while e.variants.len() < n && ii < idents.len() {
+        let id = idents[ii];
+        ii += 1;
+        let m = model::snake_method(id);
+        // two variants must not map to the same method name, and the name must be an identifier
+        if used_methods.contains(&m) || m.is_empty() || m.starts_with(|c: char| c.is_ascii_digit()) {
+            continue;
+        }
+        used_methods.push(m);
+        let mut v = VariantSpec::unit(id);
+        v.kind = rg.weighted(&[(2, Kind::Unit), (6, Kind::Tuple), (2, Kind::Named)]);
+        match v.kind {
+            Kind::Unit => {}
+            Kind::Tuple => {
+                if let (Some(sig), true) = (&last_sig, rg.chance(1, 3)) {
+                    v.fields = sig.iter().map(|t| FieldSpec { name: None, ty: *t, default_with: false }).collect();
+                } else {
+                    let nf = rg.weighted(&[(1, 0usize), (3, 1), (4, 2), (3, 3)]);
+                    v.fields = gen_fields(rg, Kind::Tuple, nf, &pool_a, &e);
+                    if nf >= 2 && rg.chance(1, 2) {
+                        let t = v.fields[0].ty;
+                        v.fields[1].ty = t;
+                    }
+                }
+                last_sig = Some(v.fields.iter().map(|f| f.ty).collect());
+            }
+            Kind::Named => {
+                let nf = rg.range(0, 2);
+                v.fields = gen_fields(rg, Kind::Named, nf, &pool_a, &e);
+            }
+        }
+        if rg.chance(1, 6) {
+            v.groups = vec![vec![VAttr::Disabled]];
+        }
+        e.variants.push(v);
+    }
+    // generic carriers (not disabled)
+    let uses = |e: &EnumSpec, t: FieldTy| e.variants.iter().any(|v| v.fields.iter().any(|f| f.ty == t));
+    let mut need = vec![];
+    if e.type_param && !uses(&e, FieldTy::Gen) {
+        need.push(FieldTy::Gen);
+    }
+    if e.lifetime && !uses(&e, FieldTy::RefStr) {
+        need.push(FieldTy::RefStr);
+    }
+    if !need.is_empty() {
+        let mut v = VariantSpec::unit("GenericsCarrier");
+        v.kind = Kind::Tuple;
+        v.fields = need.into_iter().map(|ty| FieldSpec { name: None, ty, default_with: false }).collect();
+        e.variants.push(v);
+    }
+    e
+}
+
+/// insert extra attribute items into random existing / new groups of a variant
+fn scatter(rg: &mut Rg, v: &mut VariantSpec, items: Vec<VAttr>) {
+    for it in items {
+        if v.groups.is_empty() || rg.chance(1, 2) {
+            let at = rg.range(0, v.groups.len());
+            v.groups.insert(at, vec![it]);
+        } else {
+            let g = rg.below(v.groups.len());
+            let at = rg.range(0, v.groups[g].len());
+            v.groups[g].insert(at, it);
+        }
+    }
+}
+
+fn gen_doc_lines(rg: &mut Rg) -> Vec<DocLine> {
+    let n = rg.weighted(&[(3, 0usize), (3, 1), (3, 2), (2, 3), (1, 4)]);
+    let texts = [
+        " I am documented.", " second line", "no leading space", "  two leading spaces", "\ttab first", "", " ", " with \"quotes\" and \\ backslash",
+        " braces {0} {x}", " ünïcödé 🦀", " trailing space ", "   ", " * starred", " `code` and [link](x)",
+    ];
+    (0..n)
+        .map(|_| {
+            let mut text = rg.pick(&texts).to_string();
+            let style = rg.weighted(&[(5, DocStyle::Line), (3, DocStyle::Attr), (2, DocStyle::Block)]);
+            match style {
+                DocStyle::Line => {
+                    // `////` is an ordinary comment
+                    if text.starts_with('/') {
+                        text.insert(0, ' ');
+                    }
+                }
+                DocStyle::Block => {
+                    // `/***` and `/**/` are ordinary comments; the text must not end the comment
+                    if text.is_empty() || text.starts_with('*') || text.starts_with('/') {
+                        text.insert(0, ' ');
+                    }
+                    text = text.replace("*/", "* /");
+                    if rg.chance(1, 2) {
+                        text.push_str("\n second physical line ");
+                    }
+                }
+                DocStyle::Attr => {}
+            }
+            DocLine { style, text }
+        })
+        .collect()
+}
+
+/// Meta-family enum (C14 / C15): string-family enum plus messages, docs and properties
+pub fn gen_meta(rg: &mut Rg, cfg: &GenCfg, props: bool) -> EnumSpec {
+    let mut e = gen_string(rg, cfg);
+    for vi in 0..e.variants.len() {
+        let mut items = Vec::new();
+        if !props {
+            if rg.chance(1, 2) {
+                items.push(VAttr::Message(rg.pick(MESSAGES).to_string()));
+            }
+            if rg.chance(1, 3) {
+                items.push(VAttr::Detailed(rg.pick(MESSAGES).to_string()));
+            }
+            e.variants[vi].docs = gen_doc_lines(rg);
+            e.variants[vi].docs_last = rg.chance(1, 4);
+        } else {
+            let ngroups = rg.weighted(&[(2, 0usize), (4, 1), (3, 2), (2, 3)]);
+            let mut used: Vec<(String, u8)> = Vec::new();
+            for _ in 0..ngroups {
+                let np = rg.range(0, 3);
+                let mut g = Vec::new();
+                for _ in 0..np {
+                    let k = rg.pick(PROP_KEYS).to_string();
+                    let (val, t) = match rg.below(3) {
+                        0 => (PropVal::Str(rg.pick(MESSAGES).to_string()), 0u8),
+                        1 => {
+                            let x = *rg.pick(&[0i64, 1, -1, 16, 201, -5, i64::MAX, i64::MIN, 255, 1000000007, -42]);
+                            (PropVal::Int(x, rg.chance(1, 4)), 1)
+                        }
+                        _ => (PropVal::Bool(rg.chance(1, 2)), 2),
+                    };
+                    // a (key, type) pair is declared at most once per variant (statement silent on duplicates)
+                    if used.contains(&(k.clone(), t)) {
+                        continue;
+                    }
+                    used.push((k.clone(), t));
+                    g.push((k, val));
+                }
+                items.push(VAttr::Props(g));
+            }
+        }
+        scatter(rg, &mut e.variants[vi], items);
+    }
+    e
+}
+
+/// Table-family enum (C10): field-less, >= 1 enabled variant
+pub fn gen_table(rg: &mut Rg, n_enabled: usize) -> EnumSpec {
+    let mut e = EnumSpec::new("En");
+    e.derives = vec!["EnumTable".into()];
+    let extra = rg.weighted(&[(2, 0usize), (2, 1), (1, 2), (1, 3)]);
+    let n = n_enabled + extra;
+    let mut dis: Vec<usize> = (0..n).collect();
+    rg.shuffle(&mut dis);
+    dis.truncate(extra);
+    let mut idents: Vec<&str> = IDENTS.iter().copied().filter(|i| method_safe(i)).collect();
+    rg.shuffle(&mut idents);
+    let mut used: Vec<String> = Vec::new();
+    let mut ii = 0;
+    while e.variants.len() < n && ii < idents.len() {
+        let id = idents[ii];
+        ii += 1;
+        let m = model::snake_method(id);
+        if used.contains(&m) || m.is_empty() {
+            continue;
+        }
+        used.push(m);
+        let mut v = VariantSpec::unit(id);
+        if dis.contains(&e.variants.len()) {
+            v.groups = vec![vec![VAttr::Disabled]];
+        }
+        // unrelated attributes must not disturb the table
+        if rg.chance(1, 5) {
+            v.groups.push(vec![VAttr::Serialize("x".into())]);
+        }
+        e.variants.push(v);
+    }
+    e
+}
+
+/// Discriminants-family enum (C09)
+pub fn gen_disc(rg: &mut Rg) -> EnumSpec {
+    for _attempt in 0..40 {
+        let mut e = EnumSpec::new("En");
+        e.derives = vec!["EnumDiscriminants".into()];
+        e.type_param = rg.chance(1, 4);
+        e.lifetime = rg.chance(1, 5);
+        e.where_clause = e.type_param && rg.chance(1, 2);
+        let repr = *rg.pick(&[None, None, Some("u8"), Some("i32"), Some("u16"), Some("i8"), Some("align(4), u8"), Some("u64")]);
+        e.repr = repr.map(|s| s.to_string());
+        e.repr_int = repr.map(|s| s.split(',').last().unwrap().trim().to_string());
+        let (lo, hi) = match e.repr_int.as_deref() {
+            Some(r) => model::repr_range(Some(r)),
+            None => (i32::MIN as i128, i32::MAX as i128),
+        };
+        let data = rg.chance(2, 3);
+        let explicit_ok = !(data && repr.is_none());
+        let n = rg.range(1, 7);
+        let mut idents: Vec<&str> = IDENTS.iter().copied().filter(|s| s.is_ascii()).collect();
+        rg.shuffle(&mut idents);
+        let mut stems: Vec<&str> = STEMS.iter().copied().filter(|s| s.chars().all(|c| c.is_ascii_alphanumeric() || c == '-' || c == '_')).collect();
+        rg.shuffle(&mut stems);
+        let pool = [FieldTy::U8, FieldTy::Str, FieldTy::NoDef, FieldTy::NoDef, FieldTy::Bool, FieldTy::VecU8, FieldTy::Pay];
+        let mut opts = DiscOpts::default();
+        if rg.chance(1, 2) {
+            opts.name = Some(rg.pick(&["Kind", "Tag", "MyDiscr", "En_kind", "Discriminant"]).to_string());
+        }
+        opts.vis = rg.pick(&[None, None, Some("pub"), Some("pub(crate)"), Some("pub(super)"), Some("")]).map(|s| s.to_string());
+        let dpool = ["strum::EnumIter", "strum::EnumString", "strum::Display", "strum::VariantNames", "strum::FromRepr", "Hash", "PartialOrd", "Ord"];
+        for d in dpool.iter() {
+            if rg.chance(1, 3) {
+                opts.derives.push(d.to_string());
+            }
+        }
+        if opts.derives.iter().any(|d| d == "Ord") && !opts.derives.iter().any(|d| d == "PartialOrd") {
+            opts.derives.push("PartialOrd".into());
+        }
+        let strumy = opts.derives.iter().any(|d| d.starts_with("strum::") && d != "strum::EnumIter" && d != "strum::FromRepr");
+        if strumy && rg.chance(1, 2) {
+            opts.passthrough.push(format!("strum(serialize_all = \"{}\")", rg.pick(&model::STYLES)));
+        }
+        if rg.chance(1, 4) {
+            opts.docs.push("The kind of thing.".into());
+        }
+        let mut prev: Option<i128> = None;
+        for vi in 0..n {
+            let mut v = VariantSpec::unit(idents[vi]);
+            if data {
+                v.kind = rg.weighted(&[(2, Kind::Unit), (4, Kind::Tuple), (3, Kind::Named)]);
+                let nf = if v.kind == Kind::Unit { 0 } else { rg.range(0, 3) };
+                v.fields = gen_fields(rg, v.kind, nf, &pool, &e);
+            }
+            let implicit = prev.map(|p| p + 1).unwrap_or(0);
+            let mut val = implicit;
+            if explicit_ok && rg.chance(2, 5) {
+                val = match rg.below(4) {
+                    0 => implicit + rg.range(1, 9) as i128,
+                    1 => rg.range(0, 60) as i128,
+                    2 => 1i128 << rg.range(0, 6),
+                    _ => implicit - rg.range(2, 20) as i128,
+                };
+                let text = match rg.below(3) {
+                    0 if val >= 0 => format!("{:#x}", val),
+                    1 if val > 0 && val.count_ones() == 1 => format!("1 << {}", val.trailing_zeros()),
+                    _ => format!("{}", val),
+                };
+                v.disc = Some(Disc { text, value: val });
+            }
+            prev = Some(val);
+            // E-only strum attributes must not reach D
+            let mut attrs = Vec::new();
+            if rg.chance(1, 4) {
+                attrs.push(VAttr::Serialize(format!("e-only-{}", stems[vi % stems.len()])));
+            }
+            if rg.chance(1, 8) {
+                attrs.push(VAttr::Disabled);
+            }
+            v.groups = layout(rg, attrs, false);
+            if strumy && rg.chance(1, 4) {
+                v.disc_passthrough.push(format!("strum(serialize = \"pt-{}\")", stems[vi % stems.len()]));
+            }
+            if rg.chance(1, 4) {
+                v.docs = vec![DocLine { style: DocStyle::Line, text: " documented variant".into() }];
+            }
+            e.variants.push(v);
+        }
+        // generics carrier
+        let uses = |e: &EnumSpec, t: FieldTy| e.variants.iter().any(|v| v.fields.iter().any(|f| f.ty == t));
+        let mut need = vec![];
+        if e.type_param && !uses(&e, FieldTy::Gen) {
+            need.push(FieldTy::Gen);
+        }
+        if e.lifetime && !uses(&e, FieldTy::RefStr) {
+            need.push(FieldTy::RefStr);
+        }
+        if !need.is_empty() {
+            if !data && !explicit_ok {
+                continue;
+            }
+            let mut v = VariantSpec::unit("GenericsCarrier");
+            v.kind = Kind::Tuple;
+            v.fields = need.into_iter().map(|ty| FieldSpec { name: None, ty, default_with: false }).collect();
+            if repr.is_none() && e.variants.iter().any(|x| x.disc.is_some()) {
+                continue;
+            }
+            e.variants.push(v);
+        }
+        e.disc_opts = Some(opts);
+        let ds = model::discs(&e);
+        let mut s = ds.clone();
+        s.sort();
+        s.dedup();
+        if s.len() != ds.len() || ds.iter().any(|d| *d < lo || *d > hi) {
+            continue;
+        }
+        // FromRepr on D without an integer repr takes usize: negative discriminants would not compile
+        if e.repr_int.is_none() && ds.iter().any(|d| *d < 0) {
+            continue;
+        }
+        return e;
+    }
+    let mut e = EnumSpec::new("En");
+    e.derives = vec!["EnumDiscriminants".into()];
+    e.variants.push(VariantSpec::unit("A"));
+    e.variants.push(VariantSpec::unit("B"));
+    e.disc_opts = Some(DiscOpts::default());
+    e
+}
